@@ -116,10 +116,12 @@ def seconds2hms(total_seconds):
     References:
         :cite:t:`vallado_2013_astro`, Section 3.6.3
     """
-    temp = total_seconds / 3600
-    hour = floor(temp)
-    minute = floor((temp - hour) * 60)
-    second = (temp - hour - minute / 60) * 3600
+    # [NOTE]: the remainders are taken in seconds. Going through fractional hours instead loses the
+    #   last bits, which for an exact number of minutes gave `minute - 1` and `second = 60`.
+    hour = floor(total_seconds / 3600)
+    remaining = total_seconds - hour * 3600
+    minute = floor(remaining / 60)
+    second = remaining - minute * 60
 
     return hour, minute, second
 
